@@ -289,4 +289,95 @@ Parse(b) ==
   ELSE IF Head(b) # Len(b) - 1 THEN Err("framing")
   ELSE LET r == ParseItems(Tail(b)) IN IF r.ok THEN r.items ELSE Err("framing")
 SCTListRoundTrip(l) == Parse(Embed(l)) = l
+
+(* ---------- reading a certificate back: entry points, bundles, what was read before ---------- *)
+\* "The SCT list read back from a parsed certificate equals, element for element, the list that was embedded" - by
+\* whichever entry point the certificate was parsed, and whatever was parsed before it or next to it.  What a reader
+\* reports about a certificate is a function of that certificate's own octets (clause OwnOctetsOnly below).
+\*
+\* Why this needs saying.  RFC 5280 4.1 makes four components of a TBSCertificate optional - version [0] DEFAULT v1,
+\* issuerUniqueID [1], subjectUniqueID [2], extensions [3] - and 4.1.1.2 the parameters of an AlgorithmIdentifier
+\* (absent for ECDSA signatures and Ed25519 keys, NULL for RSA).  X.680 25: an absent OPTIONAL component has NO value,
+\* an absent DEFAULT component has the default value.  A decoder that fills a structure writes the components that
+\* are present; the value of an absent one is "absent", NOT whatever the structure held before.  A certificate, as far
+\* as reading goes, is therefore the record of its optional parts, each present with a value or absent:
+Some(v) == [has |-> TRUE, v |-> v]
+Nothing == [has |-> FALSE]
+OptParts == {"version", "iuid", "suid", "exts", "sigParams", "keyParams"}
+\* A readable certificate is [ver, uid, xf, exts, sig, key]: ver is "v1" (no version element), "v2" or "v3"; uid, xf,
+\* exts as in a TBS above (the value of an SCT list extension NAMES the embedded list); sig and key are the key types
+\* of the signer and of the subject.
+ParamsOf(keyType) == CASE keyType = "rsa2048" -> Some("NULL")
+                       [] keyType = "ed25519" -> Nothing
+                       [] OTHER -> Some("curve")              \* id-ecPublicKey carries the named curve
+SigParamsOf(keyType) == IF keyType = "rsa2048" THEN Some("NULL") ELSE Nothing   \* ecdsa-with-SHA*, Ed25519: absent
+PartsOf(c) ==
+  [version   |-> IF c.ver = "v1" THEN Nothing ELSE Some(c.ver),
+   iuid      |-> IF c.uid \in {"iss", "both"} THEN Some("iuid") ELSE Nothing,
+   suid      |-> IF c.uid \in {"subj", "both"} THEN Some("suid") ELSE Nothing,
+   exts      |-> IF c.xf THEN Some(c.exts) ELSE Nothing,
+   sigParams |-> SigParamsOf(c.sig),
+   keyParams |-> ParamsOf(c.key)]
+\* Decoding c into a structure that holds `target`.  carry = FALSE is the specification.  carry = TRUE is the reader
+\* the clause excludes: it leaves the components that c does not have as they were (a scratch structure, a pooled
+\* object, a result cache that is keyed too coarsely, a field that is appended to instead of assigned).
+ZeroTarget == [p \in OptParts |-> Nothing]
+DecodeInto(target, c, carry) ==
+  LET own == PartsOf(c) IN
+  [p \in OptParts |-> IF own[p].has THEN own[p] ELSE IF carry THEN target[p] ELSE Nothing]
+\* What the reader reports from a decoded structure: the version (DEFAULT v1), which unique identifiers there are, the
+\* extension identifiers in order, the embedded SCT list ("none" if there is no SCT list extension - a certificate
+\* has at most one, RFC 5280 4.2), whether there are algorithm parameters.
+Reported(d) ==
+  LET exts == IF d.exts.has THEN d.exts.v ELSE <<>> IN
+  [version   |-> IF d.version.has THEN d.version.v ELSE "v1",
+   iuid      |-> d.iuid.has,
+   suid      |-> d.suid.has,
+   exts      |-> [i \in DOMAIN exts |-> exts[i].id],
+   sct       |-> IF Count(exts, "SCTLIST") = 0 THEN "none" ELSE exts[First(exts, "SCTLIST")].val,
+   sigParams |-> d.sigParams.has,
+   keyParams |-> IF d.keyParams.has THEN d.keyParams.v ELSE "none"]
+\* the specification of reading ONE certificate: from nothing but itself
+Read(c) == Reported(DecodeInto(ZeroTarget, c, FALSE))
+\* a reader working through a sequence of certificates (the certificates of one bundle, or the certificates handed
+\* to consecutive calls), the structure of the previous one being `target`
+RECURSIVE ReadAll(_, _, _)
+ReadAll(target, cs, carry) ==
+  IF cs = <<>> THEN <<>>
+  ELSE LET d == DecodeInto(target, Head(cs), carry) IN <<Reported(d)>> \o ReadAll(d, Tail(cs), carry)
+\* Clause OwnOctetsOnly: as many results as certificates, in order, and the i-th is what the i-th certificate reads
+\* alone.  `carry` is a parameter so that the model checker can be shown the reader the clause excludes (it must
+\* refute the clause for it: the clause is not vacuous on the case space).
+OwnOctetsOnly(cs, carry) ==
+  LET out == ReadAll(ZeroTarget, cs, carry) IN
+  /\ Len(out) = Len(cs)
+  /\ \A i \in DOMAIN cs : out[i] = Read(cs[i])
+\* the reported fields in which the excluded reader would differ at position i (which cases can tell the two apart)
+ReportFields == {"version", "iuid", "suid", "exts", "sct", "sigParams", "keyParams"}
+CarriedAt(cs, i) == LET got == ReadAll(ZeroTarget, cs, TRUE)[i]  own == Read(cs[i]) IN {f \in ReportFields : got[f] # own[f]}
+
+\* The entry points through which a certificate is read.  plural: one call takes the whole sequence (DER certificates
+\* concatenated without padding / PEM blocks one after the other) and returns one result per certificate; otherwise
+\* the certificates go to consecutive calls.  input: the certificate or only its TBSCertificate; armor: DER, PEM or
+\* the entry of a Merkle tree leaf; view: everything the reader reports, or the SCT list alone.
+EP(plural, input, armor, view) == [plural |-> plural, input |-> input, armor |-> armor, view |-> view]
+EntryPoints ==
+  [ParseCertificate            |-> EP(FALSE, "cert", "der", "all"),
+   ParseCertificates           |-> EP(TRUE,  "cert", "der", "all"),
+   ParseTBSCertificate         |-> EP(FALSE, "tbs",  "der", "all"),
+   CertificateFromPEM          |-> EP(FALSE, "cert", "pem", "all"),
+   CertificatesFromPEM         |-> EP(TRUE,  "cert", "pem", "all"),
+   ParseSCTsFromCertificate    |-> EP(FALSE, "cert", "der", "scts"),
+   ParseSCTsFromCertificatePEM |-> EP(FALSE, "cert", "pem", "scts"),
+   \* the certificate of a log entry: MerkleTreeLeaf.X509Certificate / .Precertificate (armor "leaf": the octets sit in
+   \* the TimestampedEntry of a leaf)
+   LeafX509Certificate         |-> EP(FALSE, "cert", "leaf", "all"),
+   LeafPrecertificate          |-> EP(FALSE, "tbs",  "leaf", "all")]
+View(v, r) == IF v = "scts" THEN [sct |-> r.sct] ELSE r
+\* the calls an entry point needs for the sequence cs (each call's argument is a sequence of positions of cs) ...
+CallsOf(e, cs) == IF EntryPoints[e].plural THEN <<[i \in DOMAIN cs |-> i]>> ELSE [i \in DOMAIN cs |-> <<i>>]
+\* ... and what it must report for position i, however the calls are cut
+ResultAt(e, cs, i) == View(EntryPoints[e].view, Read(cs[i]))
+\* every position is handed over exactly once, in order
+CallsCover(e, cs) == Concat(CallsOf(e, cs)) = [i \in DOMAIN cs |-> i]
 =============================================================================
